@@ -320,6 +320,27 @@ theorem exec_mp_skip (s : DsStep.S) (op : Op) (hop : ∃ x, op = .mpFree x ∨ o
 
 example : mpOpOf [7, 3] (.mpFree 4) = none := rfl
 
+
+/-- **Run level.**  Along a sequence of `eq_add` / `eq_del` / `eq_len` / `eq_get` / `eq_set` lines on an existing queue,
+the queue and the oracle in the executable's state are exactly those of `EQueue.run` — the function
+`eq_run_refines` is about — over the projected operations (`eqOpOf`: `eq_add seed` is `add (patBytes seed reclen)` …),
+as long as no step reports an access outside storage (excluded by `eq_run_refines` under `QInv` and the contract).
+(Stated for the queue; the per-line equations `exec_ea_step`, `exec_sm_step`, `exec_mp_step` give the same for the
+other families line by line — for the array the projected operation of `ea_resize` depends on the current size and
+the harness frees the copy of `ea_dup`, so there the projection is computed along the run.) -/
+theorem exec_eq_run (ops : List Op) (s : DsStep.S) (q : EQueue.EQ) (hs : s.eq = some q)
+    (hfam : ∀ op ∈ ops, (eqOpOf q.reclen.val op).isSome)
+    (hno : ∀ x ∈ (EQueue.run q (ops.filterMap (eqOpOf q.reclen.val)) s.m).1, x.2.st ≠ .oob) :
+    (runOps s ops).1.eq = some (EQueue.run q (ops.filterMap (eqOpOf q.reclen.val)) s.m).2.1 ∧
+    (runOps s ops).1.m = (EQueue.run q (ops.filterMap (eqOpOf q.reclen.val)) s.m).2.2 :=
+  eq_runOps ops s q hs hfam hno
+
+example : ([Op.eqAdd 1, .eqAdd 2, .eqDel, .eqGet 0, .eqSet 0 7, .eqLen].filterMap (eqOpOf 2)) =
+    [.add (patBytes 1 2), .add (patBytes 2 2), .delete, .get 0, .set 0 (patBytes 7 2), .getlen] := rfl
+example : ((EQueue.run ⟨⟨0, 0, []⟩, 0, 0, ⟨2, by decide⟩⟩
+    [.add (patBytes 1 2), .add (patBytes 2 2), .delete, .get 0, .set 0 (patBytes 7 2), .getlen] Mem.grantAll).1.map
+      (·.2.st)) = [.ok, .ok, .ok, .ok, .ok, .ok] := by decide +kernel
+
 /-! ## The monitor (`Spec.DSMon.monStep`, what `pmodel dsmon` runs) accepts the model
 
 `Out.ans` is what the monitor sees of a line of the model (print with `Driver/Ds.render`, cut at ` | `, read with
